@@ -28,6 +28,8 @@ func init() {
 				Doc: "Matcher/binder/root-scorer agreement on token forms: the binder must not slice or rewrite a value under weaker template guards than the matcher verified, and the root scorer must enforce what the route matcher enforces."},
 			{ID: "C01.e", Template: "T-TOKEN", Required: true, Run: ruleTokenRouter,
 				Doc: "A piece cut from Accept/Content-Type is trimmed after its last cut and before it is compared with Produces/Consumes entries; trimming first and cutting afterwards leaves the blank before ';' in the token and a legal header is refused (or a different route admitted)."},
+			{ID: "C01.f", Template: "T-SIBLING", Required: false, Run: ruleSubmatchContext,
+				Doc: "'Custom-verb suffix equal': text captured by a group of a package-level pattern (the verb letters out of ':verb') is used to test the request token only with the pattern's literal context put back (':' in front). Testing with the letters alone takes 'nocancel' for ':cancel'."},
 		},
 	})
 }
@@ -70,8 +72,8 @@ func ruleC01a(c *Ctx) {
 				if cc == nil {
 					return
 				}
-				if cal := cc.StaticCallee(); cal != nil && cal.Name() == "wrapRequestResponse" {
-					c.check(p.isVar(cc.Args[0], d.Route), fname, "request/response are wrapped by the selected route", p.ipos(i), "receiver is "+d.Route.String(), "the wrappers (selected route, Produces) come from a different route")
+				if pw := p.pairWrapper(); pw != nil && cc.StaticCallee() == pw.Fn && pw.Route >= 0 && pw.Route < len(cc.Args) {
+					c.check(p.isVar(cc.Args[pw.Route], d.Route), fname, "request/response are wrapped by the selected route", p.ipos(i), "receiver is "+d.Route.String(), "the wrappers (selected route, Produces) come from a different route")
 				}
 				if cc.IsInvoke() && cc.Method.Name() == "ExtractParameters" && len(cc.Args) == 3 {
 					okArgs := p.isVar(cc.Args[0], d.Route) && p.isVar(cc.Args[1], d.Service)
@@ -81,12 +83,13 @@ func ruleC01a(c *Ctx) {
 		}
 	}
 	// wrapRequestResponse records its receiver as the selected route
-	if w := p.fn("(*Route).wrapRequestResponse"); w != nil {
+	if pw := p.pairWrapper(); pw != nil && pw.Route >= 0 {
+		w := pw.Fn
 		ok := false
 		eachInstr(w, func(i ssa.Instruction) {
 			if st, isSt := i.(*ssa.Store); isSt {
 				if fa, isFA := st.Addr.(*ssa.FieldAddr); isFA && ownerOfFieldAddr(fa) == "Request" && fieldOfAddr(fa).Name() == "selectedRoute" {
-					ok = strip(st.Val) == ssa.Value(w.Params[0])
+					ok = strip(st.Val) == ssa.Value(w.Params[pw.Route])
 				}
 			}
 		})
@@ -706,7 +709,35 @@ func ruleC01d(c *Ctx) {
 		out := map[string]xform{}
 		eachInstr(fn, func(i ssa.Instruction) {
 			call, ok := i.(*ssa.Call)
-			if !ok || call.Call.StaticCallee() == nil || !p.inModule(call.Call.StaticCallee()) {
+			if !ok || call.Call.StaticCallee() == nil {
+				return
+			}
+			if !p.inModule(call.Call.StaticCallee()) {
+				// the same rewriting written out with the library (what an inlined helper looks like)
+				n := calleeName(&call.Call)
+				rewriting := strings.HasPrefix(n, "(*regexp.Regexp).Replace") || n == "strings.Replace" || n == "strings.ReplaceAll" ||
+					n == "strings.ToLower" || n == "strings.ToUpper" || n == "strings.TrimSuffix" || n == "strings.TrimPrefix" || n == "strings.TrimRight" || n == "strings.TrimLeft" || n == "strings.Trim"
+				if !rewriting || !isStringType(call.Type()) {
+					return
+				}
+				dep := false
+				for k, a := range call.Call.Args {
+					if taint[a] && !(k == 0 && strings.HasPrefix(n, "(*regexp")) {
+						dep = true
+					}
+				}
+				if !dep {
+					return
+				}
+				key := n
+				if strings.HasPrefix(n, "(*regexp") {
+					if u, ok := strip(call.Call.Args[0]).(*ssa.UnOp); ok {
+						if g, ok := u.X.(*ssa.Global); ok {
+							key += "[" + g.Name() + "]"
+						}
+					}
+				}
+				out[key] = xform{call.Call.StaticCallee(), templateGuards(p, fn, i.Block(), taint), p.ipos(i)}
 				return
 			}
 			if b, ok := call.Type().Underlying().(*types.Basic); !ok || b.Kind() != types.String {
@@ -762,8 +793,15 @@ func ruleC01d(c *Ctx) {
 		c.check(setString(mm.guards) == setString(b.guards), p.fname(binder), "binder applies "+name+" under the matcher's template guards", b.pos,
 			"both under "+setString(b.guards), "the binder applies "+name+" under "+setString(b.guards)+" but the matcher under "+setString(mm.guards)+": values of segments the matcher compared verbatim are rewritten before they are bound")
 	}
-	if len(bx) == 0 {
-		c.note(p.fname(binder), "binder applies no rewriting helper", "-", "nothing to compare")
+	// and the other way round: what the matcher rewrites before it compares, the binder must rewrite before it binds
+	// (or the bound value still carries what the matcher ignored)
+	for name, mm := range mx {
+		if _, ok := bx[name]; !ok {
+			c.bad(p.fname(binder), "matcher rewrites the request token with "+name+", the binder does not", mm.pos, "the value bound still contains what the matcher removed before comparing (a custom-verb suffix stays in the parameter)")
+		}
+	}
+	if len(bx) == 0 && len(mx) == 0 {
+		c.note(p.fname(binder), "neither matcher nor binder applies a rewriting helper", "-", "nothing to compare")
 	}
 	// (2) literal affix: the binder slices the value -> the matcher verifies an affix of the request token against the template
 	slices := false
